@@ -39,7 +39,10 @@ Proof.
   rewrite Hi in Hc. congruence.
 Qed.
 
-(* the direct query's current result is the content at the last raft index (ties [content_at] to the store) *)
+(* the direct query's current result is the content at the last raft index.  NOTE: in the model the store
+   IS the fold of the committed events, so this restates the model's definition of a commit; that the real
+   store agrees with the fold of the real events is checked per commit by the correspondence run
+   (Run.C11.check_q) and by the oracle (events-do-not-match-state-change), not proved *)
 Theorem C11_query_is_log : forall cache ls T key,
   env_ok cache ls ->
   content_now (run cache ls) T key = content_at (run cache ls) T (st_hi (run cache ls)) key.
@@ -71,6 +74,23 @@ Theorem C11_batch_idempotent : forall evs m key,
   aget key (apply evs (apply evs m)) = aget key (apply evs m).
 Proof. exact batch_idempotent. Qed.
 
+(* ---- [pending] is what Next hands out: with everything published, Next blocks iff nothing is pending,
+   and otherwise returns the head of [pending] and leaves the rest pending (the state after the step is
+   again a run, so this iterates: the successive Next calls return exactly [pending], in order, then
+   block).  Ties C11_no_skip / C11_eventual to the step function. *)
+Theorem C11_next_returns_pending : forall cache ls k x,
+  env_ok cache ls -> client_of (run cache ls) k = Some x -> is_open x = true -> streaming x = true ->
+  live_queue (run cache ls) = [] ->
+  match pending (run cache ls) x with
+  | [] => step (run cache ls) (LNext k) = (run cache ls, OBlock)
+  | it :: rest =>
+      snd (step (run cache ls) (LNext k)) = ODeliver it /\
+      exists x', client_of (run cache (ls ++ [LNext k])) k = Some x' /\ is_open x' = true /\
+                 streaming x' = true /\ pending (run cache (ls ++ [LNext k])) x' = rest /\
+                 live_queue (run cache (ls ++ [LNext k])) = []
+  end.
+Proof. exact next_is_pending_head. Qed.
+
 (* ---- delivered indexes never decrease (NewSnapshotToFollow resets the view and is not an update);
    they are not strictly increasing: the batch at the snapshot's index repeats that index once *)
 Theorem C11_monotone : forall cache ls k x st' it x',
@@ -101,6 +121,50 @@ Proof.
   intros st b q c x sb ls Hq Hx Hs Hin Hn. apply closed_until_resubscribe; [|exact Hn].
   eapply acl_publish_closes; eauto.
 Qed.
+
+(* ---- "rather than left with a stale view": an open streaming client always has the view of the
+   CURRENT store incarnation (this discharges the epoch hypothesis of
+   C11_view_is_some_committed_state_partial for such clients) ... *)
+Theorem C11_open_stream_is_current : forall cache ls k x,
+  env_ok cache ls -> client_of (run cache ls) k = Some x -> is_open x = true -> streaming x = true ->
+  c_epoch x = st_epoch (run cache ls) /\ c_idx x <> 0.
+Proof. exact open_stream_epoch. Qed.
+
+(* ... and a client whose view stems from a replaced incarnation never resumes: when it subscribes again
+   the first thing it is handed is NewSnapshotToFollow (reset), whatever index it sends *)
+Theorem C11_stale_client_is_reset : forall cache ls k T tok rpc q x x',
+  env_ok cache (ls ++ [LSubscribe k T tok rpc q]) ->
+  client_of (run cache ls) k = Some x -> c_idx x <> 0 -> c_epoch x <> st_epoch (run cache ls) ->
+  client_of (run cache (ls ++ [LSubscribe k T tok rpc q])) k = Some x' ->
+  match c_sub x' with
+  | Some sb => exists rest, s_pre sb = INstf :: rest
+  | None => True
+  end.
+Proof. exact stale_resubscribe. Qed.
+
+(* the hypotheses of the two forced-resubscribe theorems are met by reachable states: a queued batch of
+   the current generation naming the client's token (before its publication Next blocks, after it Next
+   returns the ACL close); a restore closes, and after resubscribing the client holds the rows of the new
+   incarnation with client epoch = store epoch = 1 *)
+Example C11_forced_resubscribe_acl_satisfiable :
+  exists b q x sb,
+    env_ok true acl_sched /\
+    st_queue (run true acl_sched) = (st_epoch (run true acl_sched), b) :: q /\
+    client_of (run true acl_sched) 0 = Some x /\ c_sub x = Some sb /\ In (c_tok x) (b_close b) /\
+    snd (step (run true acl_sched) (LNext 0)) = OBlock /\
+    snd (step (fst (step (run true acl_sched) LPublish)) (LNext 0)) = OClosed AclClosed.
+Proof. exact acl_close_witness. Qed.
+
+Example C11_forced_resubscribe_restore_satisfiable :
+  exists x sb x',
+    client_of (run true clean_sched) 0 = Some x /\ c_sub x = Some sb /\
+    snd (step (fst (step (run true clean_sched) (LRestore [(kA, 7)] 12))) (LNext 0)) = OClosed ForceClosed /\
+    client_of (run true (clean_sched ++ [LRestore [(kA, 7)] 12; LNext 0; LSubscribe 0 T_web 0 true 12;
+                                         LNext 0; LNext 0])) 0 = Some x' /\
+    c_view x' = [(kA, 7)] /\ c_epoch x' = 1 /\
+    st_epoch (run true (clean_sched ++ [LRestore [(kA, 7)] 12; LNext 0; LSubscribe 0 T_web 0 true 12;
+                                        LNext 0; LNext 0])) = 1.
+Proof. exact restore_close_witness. Qed.
 
 (* ---- the schedules of the repaired findings, on the repaired machine: the client ends with exactly the
    current rows, nothing pending, Next blocks *)
@@ -145,6 +209,11 @@ Print Assumptions C11_eventual.
 Print Assumptions C11_no_skip.
 Print Assumptions C11_batch_idempotent.
 Print Assumptions C11_monotone.
+Print Assumptions C11_next_returns_pending.
+Print Assumptions C11_open_stream_is_current.
+Print Assumptions C11_stale_client_is_reset.
+Print Assumptions C11_forced_resubscribe_acl_satisfiable.
+Print Assumptions C11_forced_resubscribe_restore_satisfiable.
 Print Assumptions C11_forced_resubscribe_restore.
 Print Assumptions C11_forced_resubscribe_acl.
 Print Assumptions C11_gap_schedule_repaired.
